@@ -48,7 +48,9 @@ META = dict(
          "histories of 25..60 operations: declare (most up front; LA, UF, AX: a fifth late, in 40% of the histories half of the atoms late and each late "
          "declaration usually followed by assert / check / backtrack of that atom), assert +/-, assert a pending theory deduction, drain deductions, "
          "backtrack 1..4 (sometimes everything), check(false), check(true) (+ fresh instance). non-trivial = history with >= 1 backtrack and >= 1 "
-         "verdict after it; distinct = (theory, pool, operations)",
+         "verdict after it; a fifth of the LA histories are of the family 'bounds implied by an active bound' (a chain of bounds of one kind on a "
+         "sum term: strongest asserted first, weaker ones declared late, asserted and retracted alone; then bounds on the summands whose total is "
+         "within +-2 of the strongest bound); distinct = (theory, pool, operations)",
 )
 
 THEORIES = ["LRA", "LRA", "LIA", "IDL", "RDL", "UF", "UF", "AX"]
@@ -170,6 +172,68 @@ def pool_ax(r):
         if t not in atoms:
             atoms.append(t)
     return hdr, atoms, z3
+
+
+def chain_la(r, real):
+    """Family 'bounds implied by an active bound': one sum term with a chain of bounds of the same kind (the strongest is
+    asserted first, weaker ones are declared late, asserted although implied, and retracted alone) and bounds on the
+    summands that are (in)consistent with the strongest one only through the row of the sum."""
+    sort = "Real" if real else "Int"
+    n = r.randint(2, 3)
+    vs = ["x", "y", "z"][:n]
+    coef = [r.choice([1, 1, 1, -1, 2]) for _ in vs]
+    t = "(+ %s)" % " ".join(v if a == 1 else "(* %s %s)" % (num(a), v) for a, v in zip(coef, vs))
+    upper = r.random() < 0.5
+    c1 = r.randint(-3, 3)
+    steps = sorted(r.sample(range(1, 9), r.randint(1, 3)))
+    cs = [c1] + [c1 + d if upper else c1 - d for d in steps]          # strongest first
+    chain = ["(%s %s %s)" % ("<=" if upper else ">=", t, num(c)) for c in cs]
+    # bounds on the summands pushing the sum the other way; their total is around the strongest bound
+    total = c1 + r.choice([-1, 0, 1, 1, 2]) * (1 if upper else -1)
+    parts, rest = [], total
+    for i, (a, v) in enumerate(zip(coef, vs)):
+        share = rest if i == n - 1 else r.randint(-2, 2)
+        rest -= share
+        # a*v >= share (upper chain) / a*v <= share (lower chain), written as a bound on v
+        q = share // a if (share % a == 0) else None
+        if q is None:
+            q = (share // a) + (1 if (upper == (a > 0)) else 0)
+        rel = (">=" if a > 0 else "<=") if upper else ("<=" if a > 0 else ">=")
+        parts.append("(%s %s %s)" % (rel, v, num(q)))
+    hdr = ["fun %s %s" % (v, sort) for v in vs]
+    extra = []
+    while len(extra) < r.randint(0, 3):
+        a = "(%s %s %s)" % (r.choice(["<=", ">=", "<", ">"]), r.choice(vs + [t]), num(r.randint(-4, 4)))
+        if a not in chain + parts + extra:
+            extra.append(a)
+    atoms = chain + parts + extra
+    nc, npart = len(chain), len(parts)
+    ops = ["D0"] + ["D%d" % (nc + i) for i in range(npart)] + ["D%d" % (nc + npart + i) for i in range(len(extra)) if r.random() < 0.6]
+    declared = set(int(o[1:]) for o in ops)
+
+    def noise():
+        x = r.random()
+        if x < 0.25:
+            return ["C1"] + (["F"] if r.random() < 0.3 else [])
+        if x < 0.35:
+            return ["G"]
+        if x < 0.45:
+            return ["C0"]
+        if x < 0.6 and extra:
+            k = nc + npart + r.randrange(len(extra))
+            return (["D%d" % k] if k not in declared and not declared.add(k) else []) + ["A%d%s" % (k, r.choice("+-")), "C1", "B1"]
+        return []
+    ops += ["A0+", "C1"]
+    for j in range(1, nc):
+        ops += noise()
+        ops += ["D%d" % j, "A%d+" % j] + (["C1"] if r.random() < 0.7 else []) + ["B1"]
+    order = list(range(nc, nc + npart))
+    r.shuffle(order)
+    for k in order:
+        ops += noise()
+        ops += ["A%d+" % k] + (["C1"] if r.random() < 0.6 else [])
+    ops += ["C1", "F", "B%d" % r.choice([1, 2, 99]), "C1", "F"]
+    return hdr, atoms, ["(declare-fun %s () %s)" % (v, sort) for v in vs], ops
 
 
 def gen_pool(r, th):
@@ -637,8 +701,11 @@ def run(ctx):
     for i in range(n):
         r = random.Random(ctx.seed * 15485863 + i * 101 + 22)
         th = r.choice(THEORIES)
-        hdr, atoms, z3decl = gen_pool(r, th)
-        ops = gen_ops(r, len(atoms), r.randint(25, 60), late_ok=th in ("LRA", "LIA", "UF", "AX"), pos_bias=0.7 if th in ("UF", "AX") else 0.5)
+        if th in ("LRA", "LIA") and r.random() < 0.2:
+            hdr, atoms, z3decl, ops = chain_la(r, th == "LRA")
+        else:
+            hdr, atoms, z3decl = gen_pool(r, th)
+            ops = gen_ops(r, len(atoms), r.randint(25, 60), late_ok=th in ("LRA", "LIA", "UF", "AX"), pos_bias=0.7 if th in ("UF", "AX") else 0.5)
         seqs.append((th, hdr, atoms, z3decl, ops))
     t0 = time.time()
     # harness: chunks of sequences, in parallel
